@@ -313,6 +313,10 @@ def run(ctx):
     ctx.rule("R14.7", "done callbacks that add or remove callbacks of the finishing task do not disturb the others: every remaining callback still runs once, run_coro ends normally and forgets every name", floor=4)
     callback_mutation_table(ctx, program, "R14.7")
 
+    ctx.rule("R14.17", "each done callback runs exactly once also when the finishing task is cancelled (task.cancel by another run) while one of its callbacks is suspended: "
+             "the remaining callbacks still run, everything recorded for the task is forgotten, and the task ends cancelled", floor=1)
+    callback_mutation_table(ctx, program, "R14.17", only=("cancel",))
+
     ctx.rule("R14.8", "the reaper and waiter service loops survive a failing command: after any exception of one iteration the next command is still taken from the queue", floor=2)
     for uid, q in (("function.py::Function.init.task_reaper", "reaper_q.get"), ("function.py::Function.init.task_waiter", "waiter_q.get")):
         pol = _ServiceLoopPolicy(program, may_raise_all=True, cancel=False, events=[q], record_atoms=False, no_raise={q})
@@ -468,8 +472,8 @@ def callback_mutation_table(ctx, program, rid, only=None):
     def info():
         return ListV((ObjV("actx", "AstEval"), ListV((), "tuple"), DictV([])), "list")
 
-    for mutate in (None, "remove", "add", "claim", "raise", "raise-last"):
-        if (only is not None and mutate not in only) or (only is None and mutate in ("raise", "raise-last")):
+    for mutate in (None, "remove", "add", "claim", "raise", "raise-last", "cancel"):
+        if (only is not None and mutate not in only) or (only is None and mutate in ("raise", "raise-last", "cancel")):
             continue
 
         def call_func(i, n, a, k, c, o, mutate=mutate):
@@ -478,6 +482,11 @@ def callback_mutation_table(ctx, program, rid, only=None):
             if mutate in ("raise", "raise-last") and cb == Const("cb1" if mutate == "raise" else "cb3"):
                 o.add("raise", c.set("$exc", ExcV("Exception", f"user code in {cb.v}")))
                 return []
+            if mutate == "cancel":
+                if cb == Const("cb1"):   # task.cancel(this task) by another run while cb1 is suspended
+                    o.add("raise", c.set("$exc", ExcV("CancelledError", "cancelled while cb1 is suspended")))
+                    return []
+                return [(c, NONE)]
             if cb == Const("cb1") and mutate:
                 t2cb = c.heap["Function.task2cb"]
                 ent = t2cb.get(Const("T"))
@@ -503,7 +512,9 @@ def callback_mutation_table(ctx, program, rid, only=None):
         ex = exits(out)
         for k, c, d in ex:
             ran = [x.v for x in c.heap.get("$ran", ListV(())).items if isinstance(x, Const)]
-            if k != "return":
+            if mutate == "cancel" and (k != "raise" or getattr(c.env.get("$exc"), "cls", "") != "CancelledError"):
+                bad = f"run_coro ends with {d}: the cancellation is swallowed (the task must still end cancelled)"
+            elif mutate != "cancel" and k != "return":
                 bad = f"run_coro leaves with {d} after running {ran}"
             elif any(ran.count(x) != 1 for x in ("cb1", "cb3")) or ran.count("cb2") > 1 or (mutate != "remove" and ran.count("cb2") != 1):
                 bad = f"callbacks run: {ran}"
@@ -516,7 +527,7 @@ def callback_mutation_table(ctx, program, rid, only=None):
                        f"must be released too, so the release has to come after the last callback")
         what = {None: "callbacks leave the table alone", "remove": "the first callback removes the second one", "add": "the first callback adds a fourth one",
                 "claim": "the first callback claims a unique name (task.unique) for the finishing task", "raise": "the first callback raises",
-                "raise-last": "the last callback raises"}[mutate]
+                "raise-last": "the last callback raises", "cancel": "the task is cancelled while its first callback is suspended"}[mutate]
         ctx.check(bool(ex) and bad is None, rid, RUN_CORO, f"three done callbacks, {what}", msg=f"run_coro with three done callbacks where {what}: {bad or 'no exit'} - "
                   f"the remaining callbacks are skipped and the task ends with an exception", key=f"callback mutation {mutate}", node=fn, rel="function.py")
 
